@@ -52,7 +52,7 @@ func (Engine) Runs(prop, tier string) int {
 	if tier == "thorough" {
 		return 400000
 	}
-	return 24000
+	return 6000
 }
 func (Engine) Real() []string {
 	return []string{"all of kyber, rewritten in a scratch copy: simyield.Point() at every function entry and before every statement of the point/scalar/suite/mask/poly/scheme files (field arithmetic and internal/protobuf untouched)", "Go race detector (-race build)"}
